@@ -369,6 +369,53 @@ func driveRend(args []string) error {
 				stats["vm.programs"]++
 				stats["vm.calls"] += t.n
 			}
+			// directed: a path that is not painted (transparent / nonsensical colour / invalid gradient / outside the LOD
+			// range), immediately followed by a path painted with a valid gradient, then a flat one
+			for why := 0; why < 5; why++ {
+				for _, cfg := range []rendCfg{cfgs[0], cfgs[2]} {
+					sel := func(op string, v int) Call { c := mkCall(op); c.Sel = v; return c }
+					creg := func(c []int) Call { x := mkCall("SetCReg"); x.C = c; return x }
+					tri := func(adj int) []Call {
+						sp := mkCall("StartPath", 1, 2)
+						sp.Adj = adj
+						return []Call{sp, mkCall("AbsLineTo", 5, 2), mkCall("RelLineTo", -1, 6), mkCall("ClosePathEndPath")}
+					}
+					prog := []Call{resetCall(cfg.vb, defaultPal()), sel("SetCSel", 10), sel("SetNSel", 10)}
+					for s := 0; s < 3; s++ {
+						cc := creg([]int{0, 40 * s, 10, 20, 255})
+						cc.Incr = 1
+						nn := mkCall("SetNReg", float32(s)/2)
+						nn.Incr = 1
+						prog = append(prog, cc, nn)
+					}
+					prog = append(prog, sel("SetCSel", 5), creg([]int{0, 3, 10 | 1<<6, 0x80 | 10, 0})) // CREG[5]: a valid gradient
+					prog = append(prog, sel("SetCSel", 6))
+					switch why { // CREG[6]: something that is not painted
+					case 0:
+						prog = append(prog, creg([]int{0, 0, 0, 0, 0}))
+					case 1:
+						prog = append(prog, creg([]int{0, 0x90, 0x10, 0x10, 0x80}))
+					case 2:
+						prog = append(prog, creg([]int{0, 3, 20 | 1<<6, 0x80 | 20, 0})) // a gradient whose stops (registers 20..) are all zero offsets
+					case 3:
+						prog = append(prog, creg([]int{0, 1, 2, 3, 255}), mkCall("SetLOD", float32(cfg.rect.Dy())+1, float32(math.Inf(1))))
+					case 4:
+						prog = append(prog, creg([]int{0, 1, 10 | 1<<6, 0x80 | 10, 0})) // a gradient with one stop
+					}
+					prog = append(prog, tri(0)...) // CREG[6]: not painted
+					if why == 3 {
+						prog = append(prog, mkCall("SetLOD", 0, float32(math.Inf(1))))
+					}
+					prog = append(prog, tri(1)...) // CREG[5]: the gradient
+					prog = append(prog, sel("SetCSel", 7), creg([]int{0, 9, 8, 7, 255}))
+					prog = append(prog, tri(0)...) // flat
+					prog = append(prog, tri(2)...) // the gradient again
+					t := newTracedRenderer(sh.Next(), fmt.Sprintf("vm/skipped-then-gradient/%d", why), cfg.rect)
+					runProg(t, prog)
+					stats["vm.programs"]++
+					stats["vm.calls"] += t.n
+				}
+			}
 			// directed: valid gradients with the largest stop counts (the stop registers wrap around modulo 64 and, from
 			// 59 stops on, share number registers with the matrix), painted at once
 			for _, ns := range []int{57, 58, 59, 60, 61, 62, 63} {
